@@ -47,7 +47,7 @@ def gen_dd(rng):
 
 
 def cases(rng, tier):
-    n = {"quick": 300, "thorough": 5000, "search": 1500}[tier]
+    n = {"quick": 600, "thorough": 5000, "search": 1500}[tier]
     out = []
     for _ in range(n):
         N = gen_N(rng, tier)
